@@ -21,12 +21,13 @@ def sig(case, d):
 
 
 def run_rule_half(ctx):
-    n = 16 if ctx.quick else 300
+    n = 16 if ctx.quick else 400
     info, _ = nf.check_cases(ctx, mode="c40", n=n, module=MODULE, cfg=CFG, diag_cfg=DIAG, chunks=4,
+                             extra_env={"VERIF_NF_OFFLOAD": "1"},
                              timeout=900 if ctx.quick else 3000, nontrivial_fn=nontrivial, sig_fn=sig, tag="c41rules")
     if info["nontrivial_cases"] == 0:
         raise nf.HarnessError("vacuous: the offload rule never fired in any generated case")
-    ctx.notes["rule_half"] = ("hosts as in C40 (nftables hosts render the offload rule with probability 1/2); forward path x 5 conntrack "
+    ctx.notes["rule_half"] = ("hosts as in C40, nftables with NFTablesFlowTableOffload on; forward path x 5 conntrack "
                               "states x (members of no-flow-offload, their neighbours, two other addresses)^2 x interface pairs; "
                               "non-trivial = the offload statement fired at least once")
     ctx.assumptions += ["'established' = conntrack state ESTABLISHED or RELATED (felix/design/dataplane.md: the rule matches "
@@ -69,7 +70,7 @@ def selftest_rule_half(ctx):
                     m["states"].append("NEW")
                     return c
 
-    return nf.corruption_selftest(ctx, mode="c40", n=16, module=MODULE, cfg=CFG, corruptions=[
+    return nf.corruption_selftest(ctx, mode="c40", n=8, module=MODULE, cfg=CFG, extra_env={"VERIF_NF_OFFLOAD": "1"}, corruptions=[
         ("ct_match_lost", ct_match_lost), ("src_exclusion_lost", src_exclusion_lost),
         ("dst_exclusion_positive", dst_exclusion_positive), ("new_state_added", new_state_added)],
         eligible=nontrivial, tries=1)
